@@ -364,6 +364,9 @@ func KnownSeen(id, key string) {
 
 // Flush writes this shard's statistics; called from TestMain.
 func Flush(property string) {
+	if f := flag.Lookup("test.fuzzworker"); f != nil && f.Value.String() == "true" {
+		return // native fuzz workers share one output directory; the driver counts their executions from the log
+	}
 	mu.Lock()
 	defer mu.Unlock()
 	st.Property = property
